@@ -149,6 +149,20 @@ Proof.
   exact (C04_delay_sufficient cs phi rank endt fuel o st acc W S H).
 Qed.
 
+(** ... and, with termination (C03), such a composition runs to completion: every time component reaches the end time. *)
+Theorem C04_cycles_covered_complete :
+  forall cs rank' endt,
+    term_ok cs rank' -> links_ok cs ->
+    (forall u c, c <> [] -> walk (delay_graph cs) u c -> endn u c = u -> wt c <= 0) ->
+    (forall u c, c <> [] -> walk (pull_graph cs) u c -> endn u c = u -> False) ->
+    exists F, forall fuel o st acc, (F <= fuel)%nat -> run fuel cs endt = (o, st, acc) ->
+      o = OOk /\ forall c, is_time cs c = true -> endt <= s_time st c.
+Proof.
+  intros cs rank' endt T LO NP AC.
+  destruct (cycles_covered_give_sufficient cs LO NP AC) as [phi [rank S]].
+  exact (C04_resolved_cycles_complete cs phi rank rank' endt T S).
+Qed.
+
 (** The two formulations are equivalent: a feasible potential exists exactly when no cycle gains weight. *)
 Theorem C04_potential_iff_cycles_covered :
   forall cs rank,
@@ -287,3 +301,4 @@ Print Assumptions C04_connect_no_false_report.
 Print Assumptions C04_ring_total_delay_suffices.
 Print Assumptions C04_cycles_covered_run.
 Print Assumptions C04_potential_iff_cycles_covered.
+Print Assumptions C04_cycles_covered_complete.
